@@ -890,10 +890,16 @@ class TreeTransform(Generic[TreeFnT]):
           'Cannot chain a transform with conflicting agg_output_keys'
           f' got {self.agg_output_keys=} and {child.agg_output_keys=}.'
       )
+    # The same slicers on both sides are the slicers of the fused transform
+    # once: twice, every slice would absorb each batch twice.
+    if self.slicers == child.slicers:
+      slicers = self.slicers
+    else:
+      slicers = self.slicers + child.slicers
     return self.maybe_replace(
         fns=self.fns + child.fns,
         agg_fns=self.agg_fns + child.agg_fns,
-        slicers=self.slicers + child.slicers,
+        slicers=slicers,
     )
 
   def named_transforms(self) -> dict[str, TreeTransform]:
